@@ -307,7 +307,12 @@ def rule_std_includes(ctx, px):
                "in headers generated without serialization support", f.node.lineno)
     # the dependency builder sets uses_integer for unions
     b = px.func("nunavut._dependencies", "DependencyBuilder._build_dependency_list")
-    ok = ("UnionType" in ast.unparse(b.node) or "_defines_union" in ast.unparse(b.node)) and "results.uses_integer = True" in ast.unparse(b.node)
+    ok = False
+    for st, gd in pyfront.walk_guarded(b.node.body):
+        if isinstance(st, ast.Assign) and any(isinstance(t, ast.Attribute) and t.attr == "uses_integer" for t in st.targets) \
+                and isinstance(st.value, ast.Constant) and st.value.value is True:
+            if any(("UnionType" in e or "_defines_union" in e) and pos for e, pos in pyfront.guard_terms(gd)):
+                ok = True
     ctx.ob(R, b.module.rel, f"{b.short} :: unions count as integer users (tag field)", ok, "", b.node.lineno)
 
 
